@@ -1,5 +1,48 @@
-(* STUB: Spec layer for slit -- to be written *)
-From Coq Require Import NArith List.
-From ACPI Require Import Lib.Bytes Lib.Sx Spec.Layout.
+(* Spec layer for the SLIT (ACPI 6.5 5.2.17), written from SPEC_NOTES.md A.2.
+   Case vocabulary (shared with the harness):
+     ctor  (oem6 tbl8 orev localities)       SLIT::new(oem_id, oem_table_id, oem_revision, localities)
+     ops   (1 a b v)                         set_distance(a, b, v)      (returns nothing: reports 0)
+   Reference: 36+8 NumberOfLocalities, then localities^2 bytes, Entry[i][j] at 44 + i * localities + j.
+   The matrix is abstract: cell (i, j) and cell (j, i) hold the last value assigned to the unordered pair {i, j}, 10 if never assigned. *)
+From Coq Require Import NArith List Bool.
+From ACPI Require Import Lib.Bytes Lib.Sx Spec.Layout Spec.MadtS Spec.HmatS.
 Import ListNotations.
-Definition slit_spec : tspec := null_spec.
+Open Scope N_scope.
+
+(* last value assigned to the unordered pair {i, j} *)
+Fixpoint last_pair (i j : N) (ops : list sx) (acc : N) : N :=
+  match ops with
+  | [] => acc
+  | SL [SA 1; SA a; SA b; SA v] :: r =>
+      last_pair i j r (if ((a =? i) && (b =? j)) || ((a =? j) && (b =? i)) then v else acc)
+  | _ :: r => last_pair i j r acc
+  end.
+
+Definition slit_op_ok (n : N) (o : sx) : bool :=
+  match o with
+  | SL [SA 1; SA a; SA b; SA v] => (a <? n) && (b <? n) && (v <? 256)
+  | _ => false
+  end.
+
+Definition slit_image (ctor : sx) (ops : list sx) : option (list N) :=
+  match ctor with
+  | SL [o; t; r; SA n] =>
+      match sx_hdr_args o t r with
+      | Some h =>
+          (* the matrix must fit the 32-bit Length field *)
+          if (44 + n * n <? 2 ^ 32) && forallb (slit_op_ok n) ops then
+            let cells := flat_map (fun i => map (fun j => last_pair i j ops 10) (seqN n)) (seqN n) in
+            Some (ref_table [83; 76; 73; 84] 1 h (le 8 n ++ cells))
+          else None
+      | None => None
+      end
+  | _ => None
+  end.
+
+Definition slit_spec : tspec := {|
+  ts_image := slit_image;
+  ts_walk := None;
+  ts_entries := fun _ _ => None;
+  ts_counts := fun _ => [];
+  ts_returns := fun _ => false
+|}.
